@@ -673,7 +673,14 @@ def unit_sequential(ctx, S):
         S.bump("sequential_cold")
         S.bump("sequential_warm")
         S.nontriv.add(lib.canon(["seq", sc]))
-        if not (ok and ok2):
+        d1, d2 = same_array(res, oracle(sc, "001")), same_array(res2, oracle(sc, "002"))
+        if not (d1 and d2):
+            ctx.violation("context_sequential", "two successive single-run get_array calls on one context: the %s call "
+                          "returns rows that differ from the same call on a fresh context (scenario %s)"
+                          % ("first" if not d1 else "second (warm plugin cache)", sc),
+                          {"input": {"scenario": {"graph": sc["graph"], "targets": list(sc["targets"]),
+                                                  "storage": sc["storage"]}, "runs": ["001", "002"]}})
+        elif not (ok and ok2):
             ctx.violation("ctx_race", "the model does not reproduce the statement trace of a sequential get_array call "
                           "(scenario %s; cold ok=%s warm ok=%s; unlabelled shared-map lines: %s)"
                           % (sc, ok, ok2, (tr.unlabelled + tr2.unlabelled)[:4]),
